@@ -53,28 +53,31 @@ def run(ctx):
     with F.Env(ctx.repo, cov) as env:
         cases = witness_cases(env)
         tripped = 0
-        agree = 0
+        reals = []
         for c in cases:
             r = env.run_real(c)
+            reals.append(r)
             res["cases"] += 1
             viol = F.monitor(env, c, r, ctx.rng("d13"))
             if viol:
                 tripped += 1
-                pc = dict(c)
-                pc["pinned"] = True
-                try:
-                    m = F.run_model(ctx, env, [pc])[0]
-                    if F.first_diff(m, r) is None:
-                        agree += 1
-                except Exception:   # noqa  (driver missing: the witness itself does not need it)
-                    pass
             for x in viol:
                 if x["signature"] not in [y["signature"] for y in res["violations"]]:
                     x["replay"] = F.public_case(env, c)
                     res["violations"].append(x)
+        if tripped:
+            # the tree shows the defect: the Lean model of the PINNED parse function must predict all of it
+            agree = 0
+            try:
+                pinned = [dict(c, pinned=True) for c in cases]
+                for m, r in zip(F.run_model(ctx, env, pinned), reals):
+                    if F.first_diff(m, r) is None:
+                        agree += 1
+            except Exception:   # noqa  (driver missing: the witness itself does not need it)
+                agree = -1
+            cov["pinned_model_agrees"] = "%d/%d" % (agree, len(cases))
         res["distinct"] = len(cases)
         cov["witness_cases_tripped"] = tripped
-        cov["pinned_model_agrees"] = agree
         pc = F.public_case(env, cases[0])
         pc.pop("vals", None)
         res["samples"].append(pc)
